@@ -133,7 +133,8 @@ def proof_obligations(prop_id, modules=None):
             res["broken"].append("lake build %s failed: %s" % (mod, "; ".join(errs[:4])))
             res["log"] += log[-4000:]
             continue
-        ok, text, offending, seen = audit_axioms(mod, names)
+        m = re.search(r"^namespace\s+([\w.]+)", open(path).read(), flags=re.M)
+        ok, text, offending, seen = audit_axioms(mod, names, namespace=m.group(1) if m else "Educe")
         if not ok:
             res["ok"] = False
             res["broken"].append("axiom audit of %s: %d/%d theorems printed, offending=%s" % (mod, seen, len(names), offending[:3]))
